@@ -92,6 +92,7 @@ type ptxn struct {
 	txn              *tikv.KVTxn
 	held             *latch.Lock // driver-held lock (direct client of the scheduler) instead of a KVTxn
 	direct           bool
+	pess             bool // pessimistic transaction: KVTxn.Commit must bypass the latches completely
 	warm             bool // the driver's warm-up transaction (not part of the program text)
 	start            uint64
 	status           byte // N, B (Commit / Lock in flight), K/S (direct lock returned), U
@@ -240,6 +241,9 @@ func (p *prog) spec() string {
 		if t.direct {
 			s += "!"
 		}
+		if t.pess {
+			s += "~"
+		}
 		ts = append(ts, s)
 	}
 	return fmt.Sprintf("size=%d;txns=%s", p.size, strings.Join(ts, "/"))
@@ -260,6 +264,10 @@ func parseProg(id, spec string) *prog {
 				x := &ptxn{status: 'N'}
 				if strings.HasSuffix(t, "!") {
 					x.direct = true
+					t = t[:len(t)-1]
+				}
+				if strings.HasSuffix(t, "~") {
+					x.pess = true
 					t = t[:len(t)-1]
 				}
 				for _, k := range strings.Split(t, ".") {
@@ -371,7 +379,7 @@ func (p *prog) run(actions []string) {
 	p.txns = append(p.txns, &ptxn{keys: []int{25}, status: 'N', warm: true})
 	actions = append([]string{"b" + strconv.Itoa(wi), "c" + strconv.Itoa(wi)}, actions...)
 	for i := range p.txns {
-		if !p.txns[i].direct {
+		if !p.txns[i].direct && !p.txns[i].pess {
 			fmt.Fprintf(out, "AUTO\t%d\n", i)
 		}
 	}
@@ -399,9 +407,22 @@ func (p *prog) run(actions []string) {
 					panic(err)
 				}
 			}
+			if t.pess {
+				txn.SetPessimistic(true)
+			}
 			t.txn, t.start = txn, txn.StartTS()
 		case 'c':
 			if t.status != 'N' || t.start == 0 {
+				continue
+			}
+			if t.pess {
+				// bypass: the latches must not see this commit at all (model action N = nothing happens)
+				_ = t.txn.Commit(context.Background())
+				t.start = 0
+				if !p.settle() {
+					return
+				}
+				p.emit("N"+strconv.Itoa(i), "-")
 				continue
 			}
 			t.status = 'B'
@@ -520,6 +541,8 @@ func main() {
 		runProg(fmt.Sprintf("t-later3-%d", size), fmt.Sprintf("size=%d;txns=0.1.3/3/1.0/0.3", size), strings.Fields("b0 b1 c1 c0 b2 c2 b3 c3"))
 		// stale on WAKE-UP: commit of {a,c} blocked behind a directly held latch on c released with a newer commit ts
 		runProg(fmt.Sprintf("t-wake-%d", size), fmt.Sprintf("size=%d;txns=0.2/2!/0/2", size), strings.Fields("b0 b1 c1 c0 u1 b2 c2 b3 c3"))
+		// a pessimistic transaction in between: bypasses the latches (keys e,f of its own: its commit ts is invisible to them)
+		runProg(fmt.Sprintf("t-pess-%d", size), fmt.Sprintf("size=%d;txns=0.2/4.5~/2/0", size), strings.Fields("b0 b1 b2 c2 c1 c0 b3 c3"))
 		// blocked, then woken NOT stale (holder gives up without commit ts)
 		runProg(fmt.Sprintf("t-wake-ok-%d", size), fmt.Sprintf("size=%d;txns=0.2/2!/0.2", size), strings.Fields("b0 b1 c1 c0 z1 b2 c2"))
 	}
